@@ -70,6 +70,10 @@ impl<C: Configuration> IngredientImpl<C> {
     ) {
         let map = |memo: &mut Memo<C>| {
             if memo.header.can_evict_value() {
+                #[cfg(salsa_rs_salsa_verif)]
+                if memo.value.is_some() {
+                    crate::verif_life::memo_evict(std::ptr::from_mut(memo) as usize);
+                }
                 // Set the memo value to `None`.
                 memo.value = None;
             }
